@@ -1,14 +1,19 @@
 package consul
 
 import (
+	"bytes"
 	"fmt"
 	"log"
+	"math"
 	"net"
+	"net/url"
 	"os"
 	"runtime"
 	"strconv"
 	"strings"
 
+	"github.com/fabiolb/fabio/route"
+	"github.com/gobwas/glob"
 	"github.com/hashicorp/consul/api"
 )
 
@@ -89,21 +94,59 @@ func (r routecmd) build() []string {
 				}
 			}
 
+			// the route parser reads the text between the quotes as is
 			cfg := "route add " + name + " " + route + " " + dst
 			if weight != "" {
 				cfg += " weight " + weight
 			}
 			if len(svctags) > 0 {
-				cfg += " tags " + strconv.Quote(strings.Join(svctags, ","))
+				cfg += " tags \"" + strings.Join(svctags, ",") + "\""
 			}
 			if len(ropts) > 0 {
-				cfg += " opts " + strconv.Quote(strings.Join(ropts, " "))
+				cfg += " opts \"" + strings.Join(ropts, " ") + "\""
+			}
+
+			// A command which fabio cannot parse or which does not describe
+			// this registration would invalidate the routing table as a whole
+			// and block the updates for all other services. Drop it instead.
+			if err := validateRouteCmd(cfg, name, route, dst); err != nil {
+				log.Printf("[WARN] consul: Skipping tag %q of service %q: %s", tag, name, err)
+				continue
 			}
 
 			config = append(config, cfg)
 		}
 	}
 	return config
+}
+
+// validateRouteCmd checks that the generated command is accepted by the
+// route parser as exactly one command for the given service, source and
+// destination and that it can be added to a routing table.
+func validateRouteCmd(cfg, name, src, dst string) error {
+	defs, err := route.Parse(bytes.NewBufferString(cfg))
+	if err != nil {
+		return err
+	}
+	if len(defs) != 1 {
+		return fmt.Errorf("tag generates %d route commands", len(defs))
+	}
+	d := defs[0]
+	if d.Cmd != route.RouteAddCmd || d.Service != name || d.Src != src || d.Dst != dst {
+		return fmt.Errorf("invalid service name, prefix or target")
+	}
+	if math.IsNaN(d.Weight) || math.IsInf(d.Weight, 0) {
+		return fmt.Errorf("invalid weight")
+	}
+	if _, err := url.Parse(d.Dst); err != nil {
+		return err
+	}
+	if n := strings.Index(src, "/"); n >= 0 && !strings.HasPrefix(src, ":") {
+		if _, err := glob.Compile(src[n:]); err != nil {
+			return err
+		}
+	}
+	return nil
 }
 
 // parseURLPrefixTag expects an input in the form of 'tag-host/path[ opts]'
